@@ -1815,6 +1815,7 @@ def app_project_runner__ProjectRunner_runProcess : List String := [
   "defer p.removeRunningProcess(proc)",
   "defer p.waitGroup.Done()",
   "if err = p.waitIfNeeded(proc.procConf); err != nil {",
+  "p.addDoneProcess(proc)",
   "proc.wontRun()",
   "p.onProcessSkipped(proc.procConf)",
   "} else {",
